@@ -10,7 +10,11 @@ SPECS = [
     ('harness/h_int.cpp', 'symx', 'h_int8', ('-DBVW=8',)), ('harness/h_int.cpp', 'symx', 'h_int12', ('-DBVW=12',)),
     ('harness/h_int.cpp', 'symx', 'h_int16', ('-DBVW=16',)),
     ('replay/r_mcb.cpp', 'real'), ('replay/r_misc.cpp', 'real'), ('replay/r_gf2.cpp', 'real'), ('replay/r_int.cpp', 'real_nolib'),
-    ('replay/r_c20.cpp', 'real'),
+    ('replay/r_c20.cpp', 'real'), ('harness/h_tbb.cpp', 'symx'), ('harness/h_mpi.cpp', 'symx_mpi'), ('replay/r_mpi.cpp', 'real_mpi'),
+    ('harness/h_exact.cpp', 'symx_asan'), ('harness/h_approx.cpp', 'symx_asan'), ('harness/h_sptree.cpp', 'symx_asan'),
+    ('harness/h_coll.cpp', 'symx_asan'), ('harness/h_gf2.cpp', 'symx_asan'), ('harness/h_tbb.cpp', 'symx_asan'),
+    ('harness/h_valid.cpp', 'symx_asan'), ('harness/h_topo.cpp', 'symx_asan'),
+    ('replay/r_mcb.cpp', 'real_asan'), ('replay/r_misc.cpp', 'real_asan'), ('replay/r_gf2.cpp', 'real_asan'),
 ]
 
 if __name__ == '__main__':
